@@ -1,0 +1,40 @@
+// Copyright 2026 Dolthub, Inc.
+//
+// Licensed under the Apache License, Version 2.0 (the "License");
+// you may not use this file except in compliance with the License.
+// You may obtain a copy of the License at
+//
+//     http://www.apache.org/licenses/LICENSE-2.0
+//
+// Unless required by applicable law or agreed to in writing, software
+// distributed under the License is distributed on an "AS IS" BASIS,
+// WITHOUT WARRANTIES OR CONDITIONS OF ANY KIND, either express or implied.
+// See the License for the specific language governing permissions and
+// limitations under the License.
+
+//go:build verif
+
+package prolly
+
+// Contracts for the deductive checks of /verif (see /verif/DESIGN.md). Comment-only: nothing here is executable.
+
+// ---- a commit's closure read back as a set holds EVERY entry of the closure (C18)
+
+//@ extern (*github.com/dolthub/dolt/go/store/prolly/tree.OrderedTreeIter[K, V]).Next as verif_x_closureIter_Next
+//@   modifies nothing
+//@   ensures err == nil ==> len(k) >= 28
+//@   ghost_set verif_ghost.ccGot = verif_ghost.ccGot + verif_b2i(err == nil)
+//@   ghost_set verif_ghost.ccLastErr = (err != nil)
+//@ extern (github.com/dolthub/dolt/go/store/hash.HashSet).Insert as verif_x_hashset_Insert
+//@   modifies nothing
+//@   ghost_set verif_ghost.ccPut = verif_ghost.ccPut + 1
+
+// AsHashSet: the walk ends only when the iterator has nothing more (its last answer was not an entry), and every
+// entry it handed out was inserted
+//@ func (CommitClosure).AsHashSet
+//@   property C18
+//@   requires verif_ghost.ccGot == 0 && verif_ghost.ccPut == 0
+//@   ensures  result1 == nil ==> verif_ghost.ccLastErr && verif_ghost.ccPut == verif_ghost.ccGot
+//@   also_modifies verif_ghost.ccGot, verif_ghost.ccPut, verif_ghost.ccLastErr
+//@   loop 1
+//@     invariant verif_ghost.ccPut == verif_ghost.ccGot
